@@ -26,6 +26,26 @@ class Scheduler:
         self.hot = set(hot_functions)
         self.hot_steps = []
         self.in_hot_at_switch = 0
+        # a baton holder that makes no step for this long is taken to be
+        # blocked on a real lock held by a parked thread: a parked thread
+        # then takes the baton back (any interleaving is a legitimate one)
+        self.block_timeout = 0.25
+        self.forced = 0
+
+    def _wait_for_baton(self, tid):
+        """park until this thread holds the baton (self.cv held)"""
+        seen = self.step_no
+        while self.current != tid:
+            signalled = self.cv.wait(timeout=self.block_timeout)
+            if self.current == tid:
+                break
+            if not signalled:
+                if self.step_no == seen and self.current in self.alive:
+                    self.forced += 1
+                    self.current = tid
+                    self.cv.notify_all()
+                    break
+                seen = self.step_no
 
     def _tracer_for(self, tid):
         def local(frame, event, arg):
@@ -43,6 +63,10 @@ class Scheduler:
 
     def yield_point(self, tid, frame):
         with self.cv:
+            if self.current != tid:
+                # woke up from a real lock while another thread holds the
+                # baton: park here
+                self._wait_for_baton(tid)
             self.step_no += 1
             if self.record and frame.f_code.co_name in self.hot:
                 self.hot_steps.append(self.step_no)
@@ -56,8 +80,7 @@ class Scheduler:
                     self.in_hot_at_switch += 1
                 self.current = target
                 self.cv.notify_all()
-                while self.current != tid:
-                    self.cv.wait()
+                self._wait_for_baton(tid)
 
     def run(self, fns):
         results = [None] * self.n
